@@ -44,10 +44,77 @@ theorem mem_schedWire {L : List (NodeId × Op)} {r : Reg} {n : NodeId} :
   · rintro ⟨p, hp, hr, rfl⟩
     exact ⟨p, List.mem_filter.mpr ⟨hp, by simpa using hr⟩, rfl⟩
 
-/-- a schedule of the circuit: all operation nodes, each once, ordered consistently with every wire -/
+/-- **the operation of a node as the circuit wires it**: the operation with only those classical registers on whose wire
+    the node lies.  `add` threads a node on the wires of all its `c_registers`; `insert_at` (by design) only on the quantum
+    registers of the given edges, so an operation inserted with `insert_at` holds a `c_register` that creates no dependency
+    in the graph.  The registers of `wiredOp P n o` are exactly the registers whose wire contains `n` (`mem_opRegs_wiredOp`). -/
+def wiredOp (P : Paths) (n : NodeId) (o : Op) : Op :=
+  { o with cregs := o.cregs.filter (fun j => decide (n ∈ P ⟨.c, j⟩)) }
+
+@[simp] theorem wiredOp_kind (P : Paths) (n : NodeId) (o : Op) : (wiredOp P n o).kind = o.kind := rfl
+@[simp] theorem wiredOp_qregs (P : Paths) (n : NodeId) (o : Op) : (wiredOp P n o).qregs = o.qregs := rfl
+@[simp] theorem wiredOp_labels (P : Paths) (n : NodeId) (o : Op) : (wiredOp P n o).labels = o.labels := rfl
+@[simp] theorem wiredOp_inner (P : Paths) (n : NodeId) (o : Op) : (wiredOp P n o).inner = o.inner := rfl
+@[simp] theorem wiredOp_indexKeys (P : Paths) (n : NodeId) (o : Op) : (wiredOp P n o).indexKeys = o.indexKeys := rfl
+theorem wiredOp_cregs (P : Paths) (n : NodeId) (o : Op) :
+    (wiredOp P n o).cregs = o.cregs.filter (fun j => decide (n ∈ P ⟨.c, j⟩)) := rfl
+
+theorem wiredOp_of_cregs_nil {P : Paths} {n : NodeId} {o : Op} (h : o.cregs = []) : wiredOp P n o = o := by
+  cases o; simp only [wiredOp] at *; simp [h]
+
+/-- only the membership of the node in the classical wires it names matters -/
+theorem wiredOp_congr {P P' : Paths} {n : NodeId} {o : Op} (h : ∀ j ∈ o.cregs, (n ∈ P' ⟨.c, j⟩ ↔ n ∈ P ⟨.c, j⟩)) :
+    wiredOp P' n o = wiredOp P n o := by
+  unfold wiredOp
+  congr 1
+  apply List.filter_congr
+  intro j hj
+  simp [h j hj]
+
+/-- a fully wired operation is its own wired form -/
+theorem wiredOp_eq_self {P : Paths} {n : NodeId} {o : Op} (h : ∀ j ∈ o.cregs, n ∈ P ⟨.c, j⟩) : wiredOp P n o = o := by
+  cases o with
+  | mk k q cr l i =>
+    simp only [wiredOp, Op.mk.injEq, true_and, and_true]
+    exact List.filter_eq_self.mpr (fun j hj => by simpa using h j hj)
+
+theorem wiredOp_wf {P : Paths} {n : NodeId} {o : Op} (h : OpWF o) : OpWF (wiredOp P n o) :=
+  { not_input := h.not_input, not_output := h.not_output, qregs_ne := h.qregs_ne, qregs_nodup := h.qregs_nodup,
+    cregs_nodup := h.cregs_nodup.sublist List.filter_sublist, qregs_quantum := h.qregs_quantum,
+    wrapper_shape := fun hk => by
+      obtain ⟨a, b, c⟩ := h.wrapper_shape hk
+      exact ⟨a, by rw [wiredOp_cregs, b]; rfl, c⟩
+    wrapper_key := h.wrapper_key }
+
+/-- **the registers of the wired operation of a node are exactly the registers whose wire contains the node** -/
+theorem mem_opRegs_wiredOp {c : Dag} {P : Paths} (g : Good c P) {i : Nat} {o : Op} (hm : (NodeId.op i, o) ∈ c.nodes) (r : Reg) :
+    r ∈ opRegs (wiredOp P (.op i) o) ↔ NodeId.op i ∈ P r := by
+  unfold opRegs
+  rw [List.mem_append, wiredOp_qregs, wiredOp_cregs]
+  by_cases hr : r.ty = .c
+  · obtain ⟨t, j⟩ := r
+    simp only at hr; subst hr
+    constructor
+    · rintro (h | h)
+      · exact absurd rfl ((g.inv.op_wf i o hm).qregs_quantum _ h)
+      · obtain ⟨j', hj', e⟩ := List.mem_map.mp h
+        injection e with _ e; subst e
+        simpa using (List.mem_filter.mp hj').2
+    · intro h
+      refine Or.inr (List.mem_map.mpr ⟨j, List.mem_filter.mpr ⟨g.mem.mem_c i o hm j h, by simpa using h⟩, rfl⟩)
+  · rw [g.mem.mem_q i o hm r hr]
+    constructor
+    · rintro (h | h)
+      · exact h
+      · obtain ⟨j', _, e⟩ := List.mem_map.mp h
+        exact absurd (by rw [← e]) hr
+    · exact Or.inl
+
+/-- a schedule of the circuit: all operation nodes, each once — each with its operation as wired (`wiredOp`: the
+    operation restricted to the classical registers the node is threaded on) — ordered consistently with every wire -/
 structure Sched (c : Dag) (P : Paths) (L : List (NodeId × Op)) : Prop where
   wire : ∀ r, c.live r → P r = .inp r :: (schedWire L r ++ [.out r])
-  nodes : ∀ p, p ∈ L ↔ (∃ i, p.1 = NodeId.op i) ∧ p ∈ c.nodes
+  nodes : ∀ p, p ∈ L ↔ (∃ i, p.1 = NodeId.op i) ∧ ∃ o, (p.1, o) ∈ c.nodes ∧ p.2 = wiredOp P p.1 o
   nodup : (L.map (·.1)).Nodup
   live : ∀ p ∈ L, ∀ r ∈ opRegs p.2, c.live r
 
@@ -91,10 +158,19 @@ theorem inp_cons_schedWire (L : List (NodeId × Op)) (r : Reg) :
 section static
 variable {c : Dag} {P : Paths} {L : List (NodeId × Op)}
 
-theorem Sched.op_node (hS : Sched c P L) {p : NodeId × Op} (hp : p ∈ L) : ∃ i, p.1 = NodeId.op i ∧ (NodeId.op i, p.2) ∈ c.nodes := by
-  obtain ⟨⟨i, hi⟩, hm⟩ := (hS.nodes p).mp hp
-  refine ⟨i, hi, ?_⟩
-  rw [← hi]; exact hm
+theorem Sched.op_node (hS : Sched c P L) {p : NodeId × Op} (hp : p ∈ L) :
+    ∃ i o, p.1 = NodeId.op i ∧ (NodeId.op i, o) ∈ c.nodes ∧ p.2 = wiredOp P (.op i) o := by
+  obtain ⟨⟨i, hi⟩, o, hm, ho⟩ := (hS.nodes p).mp hp
+  refine ⟨i, o, hi, ?_, ?_⟩
+  · rw [← hi]; exact hm
+  · rw [← hi]; exact ho
+
+theorem Sched.mem_nodeIds (hS : Sched c P L) {p : NodeId × Op} (hp : p ∈ L) : p.1 ∈ c.nodeIds := by
+  obtain ⟨_, o, hm, _⟩ := (hS.nodes p).mp hp
+  exact Dag.mem_nodeIds.mpr ⟨o, hm⟩
+
+theorem Sched.mem_of_node (hS : Sched c P L) {i : Nat} {o : Op} (hm : (NodeId.op i, o) ∈ c.nodes) :
+    (NodeId.op i, wiredOp P (.op i) o) ∈ L := (hS.nodes _).mpr ⟨⟨i, rfl⟩, o, hm, rfl⟩
 
 /-- the wire of a register of the operation at a split point of the schedule -/
 theorem Sched.wire_split (hS : Sched c P L) {pre suf : List (NodeId × Op)} {p : NodeId × Op} (hL : L = pre ++ p :: suf)
@@ -122,7 +198,7 @@ theorem Sched.inEdges_split (g : Good c P) (hS : Sched c P L) {pre suf : List (N
       by_cases hl : c.live e.key
       · exact hl
       · rw [g.inv.dead _ hl] at hmem; simp at hmem
-    obtain ⟨i, hi, _⟩ := hS.op_node hpL
+    obtain ⟨i, _, hi, _, _⟩ := hS.op_node hpL
     have hr : e.key ∈ opRegs p.2 := by
       rw [hS.wire _ hl, hi] at hmem
       have : NodeId.op i ∈ schedWire L e.key := by simpa using hmem
@@ -159,8 +235,8 @@ theorem sched_depth_step (g : Good c P) (hS : Sched c P L) (hkey : ∀ p ∈ L, 
     {pre suf : List (NodeId × Op)} {p : NodeId × Op} (hL : L = pre ++ p :: suf) (hF : FrontDepth c pre) :
     HasDepth c p.1 ((Spec.layerOf (Spec.fronts (pre.map (·.2))) p.2 : Int) - 1) ∧ FrontDepth c (pre ++ [p]) := by
   have hpL : p ∈ L := by rw [hL]; simp
-  obtain ⟨i, hi, hnode⟩ := hS.op_node hpL
-  have hwf : OpWF p.2 := g.inv.op_wf i p.2 hnode
+  obtain ⟨i, o, hi, hnode, hpo⟩ := hS.op_node hpL
+  have hwf : OpWF p.2 := hpo ▸ wiredOp_wf (g.inv.op_wf i o hnode)
   obtain ⟨a1, a2, a3⟩ := foldl_max_nat (fun r => Spec.frontGet (Spec.fronts (pre.map (·.2))) r) (opRegs p.2) 0
   have hne : opRegs p.2 ≠ [] := by
     unfold opRegs; intro h
@@ -177,7 +253,9 @@ theorem sched_depth_step (g : Good c P) (hS : Sched c P L) (hkey : ∀ p ∈ L, 
     rw [isInputNode_iff g.inv, hi]
     unfold keysAt
     rw [(opOf_eq_some g.inv.ids_nodup).mpr hnode]
-    simpa [indexKeysOf] using hkey p hpL
+    have := hkey p hpL
+    rw [hpo, wiredOp_indexKeys] at this
+    simpa [indexKeysOf] using this
   have hdn : HasDepth c p.1 ((Spec.layerOf (Spec.fronts (pre.map (·.2))) p.2 : Int) - 1) := by
     have : HasDepth c p.1
         (((((opRegs p.2).foldl (fun m r => max m (Spec.frontGet (Spec.fronts (pre.map (·.2))) r)) 0 : Nat) : Int) - 1) + 1) := by
